@@ -90,6 +90,141 @@ Proof.
   destruct (has_char c_slash p) eqn:E; [reflexivity|]. rewrite (split_on_no_char _ _ E). reflexivity.
 Qed.
 
+(* ------------------------------------------------------------------------------------------------ paths_to_cats *)
+Lemma forallb_ext_l {A} (f g : A -> bool) l : (forall x, f x = g x) -> forallb f l = forallb g l.
+Proof. intros H. induction l as [|x l IH]; cbn; [reflexivity|]. rewrite H, IH. reflexivity. Qed.
+
+Lemma two_distinct_length {A} (l : list A) x y : In x l -> In y l -> x <> y -> 2 <= length l.
+Proof.
+  destruct l as [|a [|b r]]; cbn; intros Hx Hy Hn; try lia; try contradiction.
+  destruct Hx as [<-|[]], Hy as [<-|[]]. congruence.
+Qed.
+
+(* len(set(l)) > 1 on numbers: not all elements are equal *)
+Lemma distinct_count_gt1 l : (1 <? py_distinct_count l) = negb (all_eq_nat l).
+Proof.
+  unfold py_distinct_count, all_eq_nat. destruct l as [|x r]; [reflexivity|].
+  destruct (forallb (Nat.eqb x) r) eqn:E; cbn [negb].
+  - apply Nat.ltb_ge. induction r as [|y r IH]; [cbn; lia|].
+    cbn [forallb] in E. apply andb_true_iff in E. destruct E as [Exy Er]. apply Nat.eqb_eq in Exy. subst y.
+    cbn [nodup]. destruct (in_dec Nat.eq_dec x (x :: r)) as [_|Hn]; [exact (IH Er)|exfalso; apply Hn; left; reflexivity].
+  - apply Nat.ltb_lt.
+    assert (Hy : exists y, In y r /\ y <> x).
+    { clear -E. induction r as [|y r IH]; [discriminate|]. cbn [forallb] in E. apply andb_false_iff in E. destruct E as [E|E].
+      - exists y. split; [left; reflexivity|]. apply Nat.eqb_neq in E. congruence.
+      - destruct (IH E) as [z [Hz Hn]]. exists z. split; [right; exact Hz|exact Hn]. }
+    destruct Hy as [y [Hy Hn]].
+    apply (two_distinct_length (nodup Nat.eq_dec (x :: r)) x y).
+    + apply nodup_In. left. reflexivity.
+    + apply nodup_In. right. exact Hy.
+    + congruence.
+Qed.
+
+Section GenCatsProofs.
+  Variables F T D : Type.
+  Variable feqb : F -> F -> bool.
+  Variable teqb : T -> T -> bool.
+  Variable deqb : D -> D -> bool.
+  Variable f_eq_Z : F -> Z -> bool.
+  Variable parse_float : bool -> str -> option F.
+  Variable parse_time_np : bool -> str -> option T.
+  Variable parse_time_fmt parse_time_pd : str -> option T.
+  Variable parse_delta : str -> option D.
+  Notation path_to_cats := (path_to_cats F T D feqb teqb deqb f_eq_Z parse_float parse_time_np parse_time_fmt parse_time_pd parse_delta).
+  Notation paths_to_cats := (paths_to_cats F T D feqb teqb deqb f_eq_Z parse_float parse_time_np parse_time_fmt parse_time_pd parse_delta).
+
+  (* api.paths_to_cats as regenerated from the source = the model the C08 end-to-end theorems (and C14_partition_columns) read with:
+     same guards in the same order, same scheme names, hive attempt first, drill attempt only after a ValueError and without metadata *)
+  Theorem gen_paths_to_cats_is_model : forall pm paths dirs,
+    gen_paths_to_cats F T D path_to_cats pm paths dirs = paths_to_cats pm paths dirs.
+  Proof.
+    intros pm paths dirs. unfold GenPaths.gen_paths_to_cats, Partition.paths_to_cats.
+    destruct paths as [|p ps]; [reflexivity|]. cbn [length Nat.eqb].
+    rewrite (forallb_ext_l (fun p0 => mem_str p0 [[]; []]) (fun p0 => negb (nonempty p0))) by (intros [|a r]; reflexivity).
+    destruct (forallb (fun p0 => negb (nonempty p0)) (p :: ps)); [reflexivity|]. cbv zeta.
+    change (fun path : str => split_on "/"%char path) with (split_on c_slash).
+    change (fun path : str => nonempty path) with nonempty.
+    change (fun part : list str => length part) with (@length str).
+    destruct (filter nonempty dirs) as [|d ds] eqn:Ed; [reflexivity|]. cbn [map py_nonempty_list negb orb].
+    assert (Hl : (list_max (length (split_on c_slash d) :: map (@length str) (map (split_on c_slash) ds)) <? 1) = false).
+    { apply Nat.ltb_ge. cbn [list_max fold_right]. pose proof (split_on_nonnil c_slash d) as Hn.
+      destruct (split_on c_slash d) as [|x0 l0]; [congruence|]. cbn [length].
+      pose proof (Nat.le_max_l (S (length l0)) (fold_right Init.Nat.max 0 (map (@length str) (map (split_on c_slash) ds)))). lia. }
+    rewrite Hl. change (length (split_on c_slash d) :: map (@length str) (map (split_on c_slash) ds))
+      with (map (@length str) (split_on c_slash d :: map (split_on c_slash) ds)).
+    rewrite distinct_count_gt1. reflexivity.
+  Qed.
+  (* ---------------------------------------------------------------------------------------------- _path_to_cats *)
+  Notation val_to_num := (val_to_num F T D parse_float parse_time_np parse_time_fmt parse_time_pd parse_delta).
+  Notation cats_add := (cats_add F T D feqb teqb deqb f_eq_Z).
+  Notation add_hit := (add_hit F T D feqb teqb deqb f_eq_Z parse_float parse_time_np parse_time_fmt parse_time_pd parse_delta).
+  Notation gen_add_hit := (gen_add_hit F T D val_to_num cats_add).
+  Notation gen_path_to_cats := (gen_path_to_cats F T D val_to_num cats_add).
+
+  Lemma gen_hive_hits_is_model : forall dir,
+    match gen_hive_hits dir with Some hits => res_of_opt (all_some (map pair_of hits)) | None => VErr end
+    = res_of_opt (hive_hits dir).
+  Proof.
+    intros dir. unfold gen_hive_hits, hive_hits. cbv zeta.
+    change (fun p : str => has_char "="%char p) with (has_char c_eq).
+    change (split_on "/"%char dir) with (split_on c_slash dir).
+    destruct (filter (has_char c_eq) (split_on c_slash dir)) as [|x l]; [reflexivity|].
+    cbn [map py_nonempty_list negb]. rewrite map_map. reflexivity.
+  Qed.
+
+  Lemma gen_drill_hits_is_model : forall parts, gen_drill_hits parts = drill_hits parts.
+  Proof. reflexivity. Qed.
+
+  Lemma gen_path_hits_is_model : forall hive pp, gen_path_hits hive pp = path_hits hive pp.
+  Proof.
+    intros hive pp. unfold GenPaths.gen_path_hits, path_hits. destruct hive; [apply gen_hive_hits_is_model|].
+    rewrite gen_drill_hits_is_model. reflexivity.
+  Qed.
+
+  (* the body of the inner loop, as symbolically executed from the source, is the step function of the model: the `seen` test first,
+     the conversion with the text metadata for levels already known to be text, then the four container updates *)
+  Lemma gen_add_hit_is_model : forall pm st kv, gen_add_hit pm st kv = add_hit pm st kv.
+  Proof.
+    intros pm [st| |] [key val]; reflexivity.
+  Qed.
+
+  Lemma gen_final_cats_is_model : forall st, gen_final_cats F T D st = final_cats F T D st.
+  Proof.
+    intros st. unfold GenPaths.gen_final_cats, final_cats. apply map_ext. intros [key v]. reflexivity.
+  Qed.
+
+  Lemma fold_left_ext_both {A B} (f g : A -> B -> A) : (forall a b, f a b = g a b) -> forall l a, fold_left f l a = fold_left g l a.
+  Proof. intros H l. induction l as [|x l IH]; intros a; cbn; [reflexivity|]. rewrite H. apply IH. Qed.
+
+  (* api._path_to_cats as regenerated = the reader-side model of the C08 theorems (invariant Inv over its state, read_cell ...) *)
+  Theorem gen_path_to_cats_is_model : forall hive pm pps, gen_path_to_cats hive pm pps = path_to_cats hive pm pps.
+  Proof.
+    intros hive pm pps. unfold GenPaths.gen_path_to_cats, Partition.path_to_cats.
+    rewrite (fold_left_ext_both _ (fun st pp => match st with
+                                   | Ok _ => match path_hits hive pp with
+                                             | Ok hits => fold_left (add_hit pm) hits st
+                                             | VErr => VErr
+                                             | OErr => OErr
+                                             end
+                                   | e => e
+                                   end)).
+    - destruct (fold_left _ pps (Ok (st0 F T D))); cbn [res_map]; try reflexivity. rewrite gen_final_cats_is_model. reflexivity.
+    - intros [st| |] pp; try reflexivity. rewrite gen_path_hits_is_model. destruct (path_hits hive pp); try reflexivity.
+      apply fold_left_ext_both. apply gen_add_hit_is_model.
+  Qed.
+
+  (* the two regenerated functions composed = the model's paths_to_cats: everything between the row-group paths and (scheme, cats) *)
+  Theorem gen_paths_to_cats_composed : forall pm paths dirs,
+    gen_paths_to_cats F T D gen_path_to_cats pm paths dirs = paths_to_cats pm paths dirs.
+  Proof.
+    intros pm paths dirs. rewrite <- gen_paths_to_cats_is_model. unfold GenPaths.gen_paths_to_cats.
+    rewrite !gen_path_to_cats_is_model. reflexivity.
+  Qed.
+End GenCatsProofs.
+Print Assumptions gen_paths_to_cats_is_model.
+Print Assumptions gen_path_to_cats_is_model.
+Print Assumptions gen_paths_to_cats_composed.
+
 Section GenValueProofs.
   Variables F T D : Type.
   Variable show_float : F -> str.
